@@ -3,6 +3,7 @@ import Driver.ObjFmt
 import Driver.C02
 import Parsley.Model.Loader
 import Parsley.Spec.Doc
+import Parsley.Spec.DocEnc
 namespace Driver.C03
 open Parsley Parsley.Obj Parsley.Spelling Parsley.DocSpec Driver
 
@@ -24,8 +25,16 @@ open Parsley Parsley.Obj Parsley.Spelling Parsley.DocSpec Driver
                                     type 1 by default, /Index leaving out object 0): variant even = the stream is the
                                     file's cross-reference section, odd = hybrid file whose /XRefStm stream lists some
                                     of the file-level objects (in-use rows) that the table does not mention
+      enc  <hex> <seed> <variant>   a one-revision document that DECLARES ENCRYPTION: `/Encrypt <reference | dictionary>` in the
+                                    trailer (classic table: must load exactly - nothing needs decoding), in the dictionary of
+                                    its cross-reference stream, or (hybrid) in the trailer / the /XRefStm stream's dictionary /
+                                    both; layout variant%4 (table, stream, hybrid, hybrid), placement (variant/4)%3.  Oracle:
+                                    DocSpec.acceptable (a declaring document may be refused or must load EXACTLY what
+                                    `resolve` says; accepted with objects missing / extra / wrong is bad); see `judgeEnc`
+      ench <hex> <seed> <variant>   the same over histories (C04; generator in Driver/C04.lean)
       hist <hex> <seed> <variant>   a history (C04): newest revision wins / bad /Prev chain rejected
       exp  <hex> <expected output>  hand-built corpus case with the expected output spelled out
+      decl <hex> <exact load>       hand-built file that declares encryption: `rejected` or exactly the spelled-out load
       mut  <hex>                    a corrupted file: correspondence and no panic only
     output lines (implementation and model):
       rejected | ok <root num> <root gen> | <num> <gen> <value> | ...   | panic <site>
@@ -405,6 +414,13 @@ def judgeCommon (case impl : String) : Option String :=
     some (if got == want then "ok"
       else if got.startsWith "panic" || got.startsWith "crash" || got.startsWith "hang" then "bad panic-or-crash"
       else s!"bad corpus-expectation want={want.take 200}")
+  | "decl" :: _ :: want =>
+    -- hand-built file that DECLARES encryption: refused, or exactly the spelled-out load (DocSpec.acceptable)
+    let want := " ".intercalate want
+    let got := impl.trimAscii.toString
+    some (if got == want || got == "rejected" then "ok"
+      else if got.startsWith "panic" || got.startsWith "crash" || got.startsWith "hang" then "bad panic-or-crash"
+      else s!"bad wrong-load want={want.take 200}")
   | "mut" :: hex :: _ =>
     let got := impl.trimAscii.toString
     some (if got.startsWith "panic" || got.startsWith "crash" || got.startsWith "hang" then s!"bad panic-or-crash {got.take 80}"
@@ -492,6 +508,91 @@ def judgeW0 (seed variant : Nat) (hex impl : String) : String :=
     else if got == "rejected" then "bad wellformed-rejected rejected"
     else s!"bad wrong-load want={(want.take 300)}"
 
+
+/-! ### documents and histories that declare encryption (`/Encrypt`)
+
+    The encoder is `DocSpec.renderHistoryE` (Spec/DocEnc.lean: `renderHistory` with an optional declaration per
+    revision, equal to it when there is none).  Two declarative rules are evaluated on the chain of the case:
+    `DocSpec.acceptable` (what C03 / C04 allow) and `DocSpec.asBuilt` (the order rule of pdf_traverse_xref.rs).  The expected
+    output is computed from `resolve` over what the encoder wrote; the loader model is never called. -/
+
+structure EncScene where
+  garbage : Bytes
+  binary : Bool
+  revs : List (Rev × Option EncDecl × PrevMode)
+  chain : List Nat               -- indices of the revisions on the /Prev chain, oldest first
+deriving Inhabited
+
+def renderE (sc : EncScene) : Bytes × List Nat × Nat × List Said := renderHistoryE sc.garbage sc.binary sc.revs
+
+/-- the value of an /Encrypt entry: a reference (to an existing or to an unused number) or a direct dictionary
+    (entries in key order, as the reader reports them) -/
+def rndEncVal (r : Rng) (top : Nat) : Obj × Rng :=
+  let (c, r) := r.nat 3
+  if c == 0 then
+    let (a, r) := r.nat 5
+    let (b, r) := r.nat 200
+    (.dict [(bs "Length", .int (Int.ofNat (40 + b))), (bs "R", .int (Int.ofNat (a + 2))), (bs "V", .int (Int.ofNat (a + 1)))], r)
+  else
+    let (n, r) := r.nat (top + 2)
+    (.ref (n + 1) 0, r)
+
+/-- the sections on the chain, NEWEST FIRST, as the rules see them -/
+def encSecs (sc : EncScene) : List SecView :=
+  (sc.chain.filterMap fun i => (sc.revs[i]?).map fun (r, e, _) => secView r e).reverse
+
+/-- the expected output under a rule -/
+def expectedEnc (sc : EncScene) (rule : List SecView → Verdict) : String :=
+  let (_, _, _, saids) := renderE sc
+  let on : List (Rev × Said) := sc.chain.filterMap fun i =>
+    match sc.revs[i]?, saids[i]? with
+    | some (r, _, _), some s => some (r, s)
+    | _, _ => none
+  let out (ss : List Said) : String :=
+    match resolve ss with
+    | (defs, some root) => s!"ok {root.1} {root.2}" ++ showDefs defs
+    | (_, none) => "rejected"
+  match rule (encSecs sc) with
+  | .reject => "rejected"
+  | .loadAll => out (on.map (·.2))
+  | .loadWithoutMembers =>
+    out (on.map fun (r, s) => { s with written := s.written.filter fun w => !(r.members.any fun m => (m.1, 0) == w.1) })
+
+/-- `ok` = an outcome the statements allow for this case (DocSpec.acceptable): refusal when the chain declares, or
+    exactly the objects `resolve` says.  Anything else is `bad`; the known class `encrypt-declared-below-streams` is
+    reported ONLY when the case is of that shape (decided on the CASE: the as-built rule ends with the flag up) and the
+    output is exactly what that rule predicts (accepted, every object-stream member missing). -/
+def judgeEnc (sc : EncScene) (hex impl : String) : String :=
+  let (bytes, _, _, _) := renderE sc
+  if hexOfBytes bytes != hex then "bad generator-mismatch the case does not re-derive from its seed"
+  else
+    let secs := encSecs sc
+    let exact := expectedEnc sc (fun _ => .loadAll)
+    let built := expectedEnc sc asBuilt
+    let got := impl.trimAscii.toString
+    if got.startsWith "panic" || got.startsWith "crash" || got.startsWith "hang" then s!"bad panic-or-crash {got.take 80}"
+    else if got == exact then "ok"
+    else if got == "rejected" then (if acceptable secs .reject then "ok" else "bad wellformed-rejected rejected")
+    else if asBuilt secs == .loadWithoutMembers && got == built then
+      s!"bad encrypt-declared-below-streams accepted without the object-stream members: want={(exact.take 60)}"
+    else s!"bad wrong-load want={(exact.take 300)}"
+
+/-- C03: one revision.  variant%4: 0 classic table, 1 cross-reference stream, 2/3 hybrid; hybrid placement
+    (variant/4)%3: trailer, stream dictionary, both -/
+def genEncDoc (seed variant : Nat) : EncScene :=
+  let r := Rng.mk' (seed * 15485863 + variant * 29 + 7)
+  let kind := match variant % 4 with | 0 => 0 | 1 => 1 | _ => 2
+  let place := (variant / 4) % 3
+  let (garbage, r) := rndGarbage r
+  let (bin, r) := r.nat 2
+  let (rev, g) := rndBase ⟨r, 1, []⟩ kind 65535
+  let (v, _) := rndEncVal g.r g.next
+  let d : EncDecl := match kind with
+    | 0 => ⟨v, true, place == 1⟩
+    | 1 => ⟨v, place == 1, true⟩
+    | _ => ⟨v, place != 1, place != 0⟩
+  ⟨garbage, bin == 1, [(rev, some d, .auto)], [0]⟩
+
 def judge (case impl : String) : String :=
   match judgeCommon case impl with
   | some v => v
@@ -501,6 +602,7 @@ def judge (case impl : String) : String :=
     | ["mism", hex, seed, variant] => judgeScene (genMism seed.toNat! variant.toNat!) hex impl
     | ["sys", hex, seed, variant, mode] => judgeScene (genSys seed.toNat! variant.toNat! mode.toNat!) hex impl
     | ["w0", hex, seed, variant] => judgeW0 seed.toNat! variant.toNat! hex impl
+    | ["enc", hex, seed, variant] => judgeEnc (genEncDoc seed.toNat! variant.toNat!) hex impl
     | _ => "skip"
 
 /-! ### corruption of a rendered file -/
@@ -551,6 +653,10 @@ def gen (seed n : Nat) (_tier : String) (emit : String → IO Unit) : IO Unit :=
     if k % 5 == 2 then
       let (wb, _) := w0Bytes s (k / 5)
       emit s!"w0 {hexOfBytes wb} {s} {k / 5}"
+    -- documents that declare encryption: every layout x every placement of /Encrypt (12 combinations per 60 indices)
+    if k % 5 == 4 then
+      let (eb, _, _, _) := renderE (genEncDoc s (k / 5))
+      emit s!"enc {hexOfBytes eb} {s} {k / 5}"
 
 /-- non-trivial: a document with at least 3 defined objects / a mismatch case / a corrupted file of ≥ 200 bytes -/
 def nontrivial (line : String) : Bool :=
@@ -560,6 +666,9 @@ def nontrivial (line : String) : Bool :=
   | "mism" :: _ => true
   | "sys" :: _ => true
   | "w0" :: _ => true
+  | "enc" :: _ => true
+  | "ench" :: _ => true
+  | "decl" :: _ => true
   | "exp" :: _ => true
   | "mut" :: hex :: _ => hex.length ≥ 400
   | _ => false
